@@ -11,6 +11,7 @@
 #include <shark/Models/ResizeLayer.h>
 #include <shark/Models/RBFLayer.h>
 #include <shark/Models/CMAC.h>
+#include <shark/Models/ConvolutionalModel.h>
 #include <shark/Models/Ensemble.h>
 #include <shark/Models/Kernels/KernelExpansion.h>
 #include <shark/Models/Kernels/LinearKernel.h>
@@ -422,6 +423,27 @@ static std::string cmacOp(std::size_t nIn, std::size_t nOut, std::size_t tilings
 	os << "NP=" << m.numberOfParameters() << " PV=" << showVec(m.parameterVector()) << " S=" << showMat(singles(m, X, nOut)) << " E=" << showMat(E) << " GP=" << showVec(gp) << orc;
 	return os.str();
 }
+// conv <act> valid h w c nf fh fw B probe | params (filters [f][dy][dx][channel], then offsets) | X | C
+template<class Act>
+static std::string convOp(bool valid, std::size_t h, std::size_t w, std::size_t c, std::size_t nf, std::size_t fh, std::size_t fw, std::size_t B, std::vector<double> const& p, std::vector<double> const& xs, std::vector<double> const& cs, bool kinky, bool exact, bool probe){
+	Conv2DModel<RealVector, Act> m(Shape({h, w, c}), Shape({nf, fh, fw}), valid ? Padding::Valid : Padding::ZeroPad);
+	std::size_t nIn = h*w*c, nOut = m.outputShape().numElements();
+	if(p.size() != m.numberOfParameters() || xs.size() != B*nIn || cs.size() != B*nOut) return "bad-op";
+	RealVector pv = toVec(p); RealMatrix X = toMat(xs, B, nIn), C = toMat(cs, B, nOut);
+	// probe = 0: the input derivative (finding F-C04-4) is left out, everything else is still checked
+	std::string orc = oracle(m, X, C, pv, exact, true, probe);
+	if(!kinky) orc += fdOracle(m, X, C, pv, probe);
+	m.setParameterVector(pv);
+	boost::shared_ptr<State> st = m.createState();
+	RealMatrix E; m.eval(X, E, *st);
+	RealVector gp; RealMatrix gx;
+	m.weightedParameterDerivative(X, E, C, *st, gp);
+	if(probe) m.weightedInputDerivative(X, E, C, *st, gx);
+	std::ostringstream os;
+	os << "NP=" << m.numberOfParameters() << " PV=" << showVec(m.parameterVector()) << (exact ? " S=" : " TS=") << showMat(singles(m, X, nOut)) << (exact ? " E=" : " TE=") << showMat(E)
+	   << " GP=" << showVec(gp) << " GX=" << (probe ? showMat(gx) : std::string("-")) << orc;
+	return os.str();
+}
 static bool natsFrom(std::vector<std::string> const& t, std::size_t from, std::size_t count, std::vector<std::size_t>& d){ return t.size() == from + count && vh::allNat(t, from, d) && d.size() == count; }
 
 int main(){
@@ -464,6 +486,14 @@ int main(){
 			double gamma; if(parseDy(secs[0][2], gamma)) out = kexpOp(secs[0][1], gamma, d[0], d[1], d[2], d[3] == 1, d[4], d[5], q2, p, xs, secs[0][1] == "linear");
 		}else if(secs.size() == 4 && secs[0].size() == 7 && secs[0][0] == "ensemble" && vh::allNat(secs[0], 2, d) && d.size() == 5 && nums(secs[1], q2) && nums(secs[2], p) && nums(secs[3], xs)){
 			out = ensembleOp(secs[0][1], d[0], d[1], d[2], d[3] == 1, d[4], q2, p, xs);
+		}else if(secs.size() == 4 && secs[0].size() == 11 && secs[0][0] == "conv" && vh::allNat(secs[0], 2, d) && d.size() == 9 && nums(secs[1], p) && nums(secs[2], xs) && nums(secs[3], cs)){
+			std::string act = secs[0][1];
+			if(d[1] >= d[5] && d[2] >= d[6] && d[5] >= 1 && d[6] >= 1 && d[3] >= 1 && d[4] >= 1){
+				if(act == "linear") out = convOp<LinearNeuron>(d[0] == 1, d[1], d[2], d[3], d[4], d[5], d[6], d[7], p, xs, cs, false, true, d[8] == 1);
+				else if(act == "rectifier") out = convOp<RectifierNeuron>(d[0] == 1, d[1], d[2], d[3], d[4], d[5], d[6], d[7], p, xs, cs, true, true, d[8] == 1);
+				else if(act == "tanh") out = convOp<TanhNeuron>(d[0] == 1, d[1], d[2], d[3], d[4], d[5], d[6], d[7], p, xs, cs, false, false, d[8] == 1);
+				else if(act == "logistic") out = convOp<LogisticNeuron>(d[0] == 1, d[1], d[2], d[3], d[4], d[5], d[6], d[7], p, xs, cs, false, false, d[8] == 1);
+			}
 		}else if(secs.size() == 5 && secs[0][0] == "cmac" && natsFrom(secs[0], 1, 5, d) && nums(secs[1], q2) && q2.size() == 2 && nums(secs[2], p) && nums(secs[3], xs) && nums(secs[4], cs)){
 			if(d[3] >= 2 && d[2] >= 1) out = cmacOp(d[0], d[1], d[2], d[3], d[4], q2[0], q2[1], p, xs, cs);
 		}else if(secs.size() == 3 && secs[0].size() == 4 && secs[0][0] == "rowact" && nums(secs[1], xs) && nums(secs[2], cs)){
